@@ -171,7 +171,7 @@ func runC10(r *vh.Run, i int) {
 			}
 			return
 		}
-		known, unknown := hd.classifySecondPass(a, b)
+		known, unknown := hd.classifyDiff(a, b, hm.w.Repos["r"])
 		if len(unknown) > 0 {
 			hd.viol("stores-differ", fmt.Sprintf("%s the directory store and the memory store, given the same requests (%s), answer differently: %s", when, hd.polString(), strings.Join(unknown, "; ")))
 			return
